@@ -59,6 +59,8 @@ def cases(tier, seed):
             if size <= 2:
                 yield {"k": "git", "rules": list(rs), "nested": False, "where": "global-excludes"}
                 yield {"k": "git", "rules": list(rs), "nested": False, "where": "info-exclude"}
+    for name in GITBYTES:
+        yield {"k": "gitbytes", "name": name}
     for sub in (False, True):
         for meson in (False, True):
             for cwd in ("root", "subdir", "outside"):
@@ -133,23 +135,31 @@ def reference_sets(root, opts=None, ignored=()):
     return cov, unspec, kinds
 
 
+class ToolFailure(Exception):
+    """A consumer ended in an exception or an exit status it does not have on a well-formed tree."""
+
+    def __init__(self, cmd, out):
+        super().__init__(f"{cmd} failed: {out.brief()}")
+        self.cmd, self.out = cmd, out
+
+
 def consumers(root, extra=(), cwd=None, do_annotate=True):
     """examined sets of the four consumers (paths relative to root)."""
     base = [*extra, "--root", str(root), "--no-multiprocessing"]
     out = {}
     lint = run_cli(base + ["lint", "--json"], cwd=cwd)
     if lint.exc or lint.exit_code not in (0, 1):
-        raise HarnessError(f"lint failed: {lint.brief()}")
+        raise ToolFailure("lint", lint)
     out["lint"] = {f["path"] for f in json.loads(lint.stdout)["files"]}
     spdx = run_cli(base + ["spdx"], cwd=cwd)
     if spdx.exc or spdx.exit_code != 0:
-        raise HarnessError(f"spdx failed: {spdx.brief()}")
+        raise ToolFailure("spdx", spdx)
     out["spdx"] = {l[len("FileName: ./"):] for l in spdx.stdout.split("\n") if l.startswith("FileName: ./")}
     kinds = tree_kinds(root)
     args = [str(root / p) for p, k in kinds.items() if k in ("file", "empty", "special") or (k == "symlink" and os.path.exists(root / p))]
     lf = run_cli(base + ["lint-file", *args], cwd=cwd)
     if lf.exc or lf.exit_code not in (0, 1):
-        raise HarnessError(f"lint-file failed: {lf.brief()}")
+        raise ToolFailure("lint-file", lf)
     seen = set()
     pre = str(root) + "/"
     for line in lf.stdout.split("\n"):
@@ -164,7 +174,7 @@ def consumers(root, extra=(), cwd=None, do_annotate=True):
         rel_args = [os.path.join(some_dir, "..", os.path.relpath(a, root)) for a in args]
         lf2 = run_cli([*extra, "--root", str(root), "--no-multiprocessing", "lint-file", *rel_args], cwd=str(root))
         if lf2.exc or lf2.exit_code not in (0, 1):
-            raise HarnessError(f"lint-file (dotdot spelling) failed: {lf2.brief()}")
+            raise ToolFailure("lint-file (dotdot spelling)", lf2)
         seen2 = set()
         for line in lf2.stdout.split("\n"):
             m = re.match(r"^(.*): (no license identifier|no copyright notice|read error|missing license \S+)$", line)
@@ -176,7 +186,7 @@ def consumers(root, extra=(), cwd=None, do_annotate=True):
         before = read_tree(root)
         an = run_cli(base + ["annotate", "--copyright", "Jane", "--year", "2020", "--recursive", "--fallback-dot-license", str(root)], cwd=cwd)
         if an.exc or an.exit_code not in (0, 1):
-            raise HarnessError(f"annotate -r failed: {an.brief()}")
+            raise ToolFailure("annotate -r", an)
         after = read_tree(root)
         ex = set()
         for p in set(after) | set(before):
@@ -203,7 +213,7 @@ def annotate_subdirs(root, cov, unspec, extra=(), cwd=None):
         before = read_tree(root)
         an = run_cli([*extra, "--root", str(root), "annotate", "--copyright", "Jane", "--year", "2020", "--recursive", "--fallback-dot-license", str(root / d)], cwd=cwd)
         if an.exc or an.exit_code not in (0, 1, 2):
-            raise HarnessError(f"annotate -r {d} failed: {an.brief()}")
+            raise ToolFailure(f"annotate -r {d}", an)
         after = read_tree(root)
         ex = set()
         for p in set(after) | set(before):
@@ -379,11 +389,49 @@ def ev_sub(c) -> R:
     return r
 
 
-_EV = {"names": ev_names, "git": ev_git, "sub": ev_sub}
+GITBYTES = {
+    # (path with the undecodable byte as a lone surrogate, .gitignore)
+    "ignored-file": ("bad\udcff.log", "*.log\n"), "ignored-dir": ("caf\udce9dir/x.py", "caf*/\n"), "file-in-ignored-dir": ("build/bad\udcfe.o", "build/\n"),
+    "ignored-latin1-name": ("na\udcefve.tmp", "*.tmp\n"),
+}
+
+
+def ev_gitbytes(c) -> R:
+    """A Git-ignored path whose name is not valid UTF-8 (never printed, only compared)."""
+    r = R()
+    root = fresh_dir("c03")
+    name, rules = GITBYTES[c["name"]]
+    rec = {"a.py": "a = 1\n", "d/b.py": "b = 1\n", "keep.txt": "k\n", name: "ignored content\n"}
+    materialise(root, rec)
+    gitrepo.git(root, "init", "-q")
+    gitrepo.git(root, "add", "-f", "--", "a.py")
+    (root / ".gitignore").write_text(rules)
+    if gitrepo.git(root, "check-ignore", "-q", "--", name, check=False).returncode != 0:
+        raise HarnessError(f"{name!r} is not ignored by {rules!r}")
+    cov, unspec, _ = reference_sets(root, ignored={name})
+    r.validated = 0
+    got = consumers(root, do_annotate=True)
+    compare(r, f"git repo with an ignored path named {name!r}", "gitbytes", cov, unspec, got)
+    r.evals = 5
+    r.outcome = "gitbytes"
+    r.tags.append("gitbytes")
+    return r
+
+
+_EV = {"names": ev_names, "git": ev_git, "sub": ev_sub, "gitbytes": ev_gitbytes}
 
 
 def evaluate(c) -> R:
-    return _EV[c["k"]](c)
+    try:
+        return _EV[c["k"]](c)
+    except ToolFailure as e:
+        # every tree built here is a well-formed project: a consumer that cannot finish examines nothing at all
+        r = R()
+        what = e.out.exc if e.out.exc else f"exit{e.out.exit_code}"
+        r.violation(f"consumer-failed|{c['k']}|{e.cmd}|{what}", f"case {c}: `{e.cmd}` did not finish: {e.out.brief()}")
+        r.outcome = "consumer-failed"
+        r.tags.append(c["k"])
+        return r
 
 
 def vacuity(st):
